@@ -217,7 +217,21 @@ def st_segment(ops, base_dir, clock, files_model):
                     coll = copy.deepcopy(src.generation_metadata_collected) if op[5] else None
                     if coll is None and not strip and any(z.generation_meta is None for z in mazes) and not all(z.generation_meta is None for z in mazes):
                         continue  # partly stripped: collection is documented to raise
-                    d = MazeDataset(cfg=copy.deepcopy(src.cfg), mazes=mazes, generation_metadata_collected=coll)
+                    own_cfg = copy.deepcopy(src.cfg)
+                    if len(op) > 6 and op[6] == "explicit-none":
+                        # the caller's OWN configuration object, spelled with explicit None arguments ("use the default"), held
+                        # by the dataset as it is (generation hands out a config that already went through serialise/load)
+                        import dataclasses
+
+                        ek = dict(own_cfg.endpoint_kwargs)
+                        for key in ("allowed_start", "allowed_end")[: 1 + len(op[3]) % 2]:
+                            ek.setdefault(key, None)
+                        ck = dict(own_cfg.maze_ctor_kwargs)
+                        if getattr(own_cfg.maze_ctor, "__name__", "") == "gen_dfs":
+                            ck.setdefault("max_tree_depth", None)
+                        own_cfg = dataclasses.replace(own_cfg, endpoint_kwargs=ek, maze_ctor_kwargs=ck)
+                        bump("probe_handmade_cfg_with_explicit_none_arguments")
+                    d = MazeDataset(cfg=own_cfg, mazes=mazes, generation_metadata_collected=coll)
                     slots[op[2]] = d
                     events.append(["hand", len(src), len(d), bool(strip), coll is not None, int(d.cfg.n_mazes)])
                     if int(d.cfg.n_mazes) != len(d):
@@ -473,6 +487,8 @@ def gen_history(rng: random.Random, tier: str) -> dict:
                 slots.append(dst + "h")
                 ops.append(["mem", dst + "h", rng.choice(["minimal", "minimal", "serialize", "soln_cat", "full"])])
             ops.append(["hand", src, dst, [rng.randrange(12) for _ in range(rng.randint(1, 9))], rng.random() < 0.5, rng.random() < 0.5])
+            if sum(ops[-1][3]) % 4 == 0:  # decided by what is already drawn: the specs of all other runs stay what they were
+                ops[-1].append("explicit-none")
         elif r < 0.58:
             ops.append(["mem", rng.choice(slots), rng.choice(["serialize", "serialize", "full", "minimal", "soln_cat"])])
         elif r < 0.74:
